@@ -88,7 +88,7 @@ def main():
     llines = []; lmeta = []
     for fam in ('uri', 'iri'):
         g = Gen(random.Random(rnd.random()), fam)
-        for p, q in cmpgen.ref_pairs(g, 3000 if thorough else 700):
+        for p, q in cmpgen.ref_pairs(g, 15000 if thorough else 700):
             if p['scheme'] is None: p['scheme'] = 's'
             if q['scheme'] is None: q['scheme'] = 's'
             if p['authority'] is None and p['path'].startswith('//'): continue
